@@ -29,8 +29,12 @@ CONFIGS = [
      ["replace_function_with_other_function"]),
     # the interface layer (architecture-independent; read in the x86-64 / Linux configuration)
     ("GenIf", {"target_os": "linux", "target_arch": "x86_64", "unix": True}, 64,
-     ["interface/injector.rs"],
-     ["signature_returns_bool"]),
+     ["interface/injector.rs", "interface/verifier.rs", "interface/func_ptr.rs", "injector_core/internal.rs"],
+     ["signature_returns_bool", "WhenCalledBuilder::will_execute_raw", "WhenCalledBuilder::will_execute_raw_unchecked",
+      "WhenCalledBuilder::will_execute", "WhenCalledBuilder::will_return_boolean",
+      "WhenCalledBuilderAsync::will_return_async", "WhenCalledBuilderAsync::will_return_async_unchecked",
+      "InjectorPP::new", "InjectorPP::prevent", "InjectorPP::when_called", "InjectorPP::when_called_unchecked",
+      "InjectorPP::Drop::drop", "CallCountVerifier::Drop::drop", "NoPoisonMutex::lock", "FuncPtr::new"]),
 ]
 
 
@@ -41,11 +45,22 @@ def load(tr, path):
             continue
         if it[0] in ("fn", "fn_unsupported"):
             tr.fns.setdefault(it[1].split("::")[-1], it)
+            if tr.iface and "::" in it[1]:
+                # methods are also known by `Type::method` (trait impls: `Type::Trait::method` and `Type::method`)
+                parts = it[1].split("::")
+                tr.fns.setdefault(it[1], it)
+                tr.fns.setdefault(parts[0] + "::" + parts[-1], it)
+        elif it[0] == "enum":
+            tr.enums[it[1]] = it[2]
         elif it[0] == "struct":
             tr.structs[it[1]] = it[2]
         elif it[0] == "const":
             try:
                 t = tr.ty(it[2])
+                if t.kind in ("struct", "opaque"):
+                    # a static object (the lock): known by its type only
+                    tr.consts[it[1]] = (t, "()", None)
+                    continue
                 fc = FnCompiler(tr, "<const>", None)
                 cx = Ctx(tr, {}, "<const>", {}, False)
                 if t.kind == "int":
@@ -62,6 +77,7 @@ def load(tr, path):
 def translate_config(repo, ns, cfg, bits, files, roots):
     tr = Translator(cfg, bits)
     tr.prefix = ns
+    tr.iface = ns == "GenIf"
     # macOS `patch_function` is a sequence of mach calls: an external for the translator
     if cfg.get("target_os") == "macos":
         rs2lean.EXTERNALS["patch_function"] = (None,)
